@@ -553,8 +553,14 @@ class Generator:
                 if len(hits) != 1 and not every:
                     raise LostAnchor("fn %s: %s '%s' anchor text found %d times: %s" % (
                         fid, kind, label, len(hits), norm(atext)[:120]))
-                wtext = "\n".join(wbuf).strip("\n")
+                wtext0 = "\n".join(wbuf).strip("\n")
+                want = [t.text for t in sig(lex(atext))]
                 for (a, b) in hits:
+                    # identifiers bound by the wildcards __w1, __w2, .. of the anchor are carried into the replacement
+                    wtext = wtext0
+                    for k, w in enumerate(want):
+                        if w.startswith("__w") and w[3:].isdigit():
+                            wtext = re.sub(r"\b%s\b" % w, toks[a + k].text, wtext)
                     rk, wrapped = self._region(u, kind, fid, label, wtext)
                     edits.append((toks[a].start, toks[b].end - toks[a].start, wrapped))
                 u.extraction.append("fn %s: %s [%s]%s: `%s` => `%s`" % (fid, kind, label, (" x%d" % len(hits)) if every else "", norm(atext), norm(wtext)))
